@@ -42,12 +42,12 @@ def run_stream(res, key_prefix, cases, rng, label):
     order = list(range(len(cases)))
     rng.shuffle(order)
     import copy
-    for mode in ('one_thread', 'two_threads', 'checkpointed', 'fed_in_pieces'):
+    for mode in ('one_thread', 'two_threads', 'checkpointed', 'fed_in_pieces', 'handed_over', 'two_feeders'):
         parser = ev.new_parser()
         ts = 5000
         expected_by_first_ts = {}
         items = []
-        if mode in ('one_thread', 'checkpointed', 'fed_in_pieces'):
+        if mode in ('one_thread', 'checkpointed', 'fed_in_pieces', 'handed_over'):
             for i in order[:len(order) if mode == 'one_thread' else 300]:
                 seq, texts, desc = cases[i]
                 items.append([(6, a) for a in seq])
@@ -87,6 +87,57 @@ def run_stream(res, key_prefix, cases, rng, label):
                             clone.feed(e)
                         res.count('parser_checkpoints_resumed')
                     events = events[cut:]
+                if mode == 'handed_over':
+                    # the stream is advanced by one OS thread, then - with the window still open - by another (a consumer
+                    # that hands its half-read generator to a worker): who feeds a record is not part of the record
+                    import threading
+                    cut = rng.randrange(1, len(events)) if len(events) > 1 else 0
+
+                    def rest(part=events[cut:], gi=gi):
+                        try:
+                            for e in part:
+                                t = parser.feed(e)
+                                if t is not None:
+                                    got.setdefault((gi, t.ktraces[0].tid), []).append(str(t))
+                        except Exception as x:                      # noqa
+                            got.setdefault((gi, 6), []).append(f'<raised {x!r}>')
+                    for e in events[:cut]:
+                        t = parser.feed(e)
+                        if t is not None:
+                            got.setdefault((gi, t.ktraces[0].tid), []).append(str(t))
+                    worker = threading.Thread(target=rest, daemon=True)
+                    worker.start()
+                    worker.join(timeout=60)
+                    continue
+                if mode == 'two_feeders':
+                    # ONE parser fed by two live feed_generator()s, one per CPU buffer, whose results are taken in turns
+                    # (heapq.merge / zip over per-CPU generators): the group's records alternate between the buffers
+                    import itertools
+                    bufs = [iter(events[0::2]), iter(events[1::2])]
+                    consumed = []
+                    shared = ev.new_parser()
+                    feeders = [shared.feed_generator((consumed.append(e) or e) for e in b) for b in bufs]
+                    live = [True, True]
+                    for k in itertools.cycle((0, 1)):
+                        if not any(live):
+                            break
+                        if live[k]:
+                            try:
+                                t = next(feeders[k])
+                                got.setdefault((gi, t.ktraces[0].tid), []).append(str(t))
+                            except StopIteration:
+                                live[k] = False
+                    # what a single feeder makes of the order in which the records were really consumed
+                    ref = ev.new_parser()
+                    want = [str(t) for t in (ref.feed(e) for e in consumed) if t is not None]
+                    if sorted(got.get((gi, 6), []) + got.get((gi, 7), [])) != sorted(want):
+                        res.violation(f'{key_prefix}-depends-on-the-number-of-feeders', f'{label}: one parser fed by two live '
+                                      f'feed_generator()s taken in turns rendered {got.get((gi, 6), []) + got.get((gi, 7), [])}, a single '
+                                      f'feeder given the records in the order they were consumed renders {want}', {})
+                        return
+                    got.pop((gi, 6), None)
+                    got.pop((gi, 7), None)
+                    continue
                 if mode == 'fed_in_pieces':
                     # the generator interface, the window handed over in several feed_generator() calls (also cut in
                     # the middle of the window; some pieces are empty)
@@ -108,8 +159,10 @@ def run_stream(res, key_prefix, cases, rng, label):
                           f'parser raised {x!r} at {core.short_tb(x)}')
             return
         res.count(f'stream_windows_{mode}', len(order))
-        if mode in ('one_thread', 'checkpointed', 'fed_in_pieces'):
+        if mode in ('one_thread', 'checkpointed', 'fed_in_pieces', 'handed_over'):
             pairs = [((gi, 6), cases[i]) for gi, i in enumerate(order[:len(items)])]
+        elif mode == 'two_feeders':
+            pairs = []              # (judged group by group above)
         else:
             pairs = []
             for gi, (a, b) in enumerate(zip(order[0::2], order[1::2])):
@@ -357,6 +410,80 @@ def run_front_end_sequences(res, key_prefix, cases, rng, label, n=40):
                     return
 
 
+def run_permuted(res, key_prefix, cases, rng, label, n=300):
+    """The same windows under a supplied table that hands the ids in use to other names in use (ev.permuted), in the same
+    process that has just rendered them under the bundled table: which decoder renders an id is the table's decision,
+    request by request; nothing remembered per id may leak from one table to the other."""
+    pool = list(cases)
+    rng.shuffle(pool)
+    pool = pool[:n]
+    if len(pool) < 2:
+        return
+    lists = [H.materialize([(6, a) for a in seq], t0=5000) for seq, _, _ in pool]
+    try:
+        lists2, table = ev.permuted(lists, rng)
+    except Exception as x:
+        res.inconclusive.append(f'{label}: permuted table could not be built: {x!r}')
+        return
+    for (seq, texts, desc), events2 in zip(pool, lists2):
+        try:
+            parser = ev.new_parser(codes=table)
+            got = [str(t) for t in (parser.feed(e) for e in events2) if t is not None]
+        except Exception as x:
+            res.violation(f'{key_prefix}-permuted-table-raises-{core.exc_name(x)}', f'{label}: {desc} under a table that hands '
+                          f'its ids to other names: {x!r} at {core.short_tb(x)}', {'description': desc})
+            return
+        res.count('windows_under_a_table_with_permuted_ids')
+        if got != texts:
+            res.violation(f'{key_prefix}-depends-on-another-tables-ids', f'{label}: {desc}: rendered {got} under a supplied table '
+                          f'that gives its ids to other decoders (the records renumbered accordingly), {texts} under the '
+                          f'bundled table in the same process', {'description': desc})
+            return
+
+
+def run_aborted(res, key_prefix, cases, rng, label, n=60):
+    """A request is cut short by an exception that does not come from the data (monitors.AbortAt: raised at the k-th line
+    executed inside the repository, for every k until the window completes), the process goes on, and the same window is
+    decoded again on a fresh parser: it reads as if nothing had happened before."""
+    from vlib import monitors
+    pool = list(cases)
+    rng.shuffle(pool)
+    for seq, texts, desc in pool[:n]:
+        events = H.materialize([(6, a) for a in seq], t0=5000)
+        k = 0
+        while True:
+            k += 1 if k < 40 else rng.randrange(1, 9)
+            parser = ev.new_parser()
+            fired = False
+            try:
+                with monitors.AbortAt(k) as ab:
+                    for e in events:
+                        t = parser.feed(e)
+                        if t is not None:
+                            str(t)
+                fired = ab.fired
+            except monitors.Aborted:
+                fired = True
+            except Exception:
+                fired = True            # (an abort in the middle may surface as another error: the request failed)
+            res.count('aborted_requests')
+            try:
+                fresh = ev.new_parser()
+                got = [str(t) for t in (fresh.feed(e) for e in events) if t is not None]
+            except Exception as x:
+                res.violation(f'{key_prefix}-raises-after-an-aborted-request', f'{label}: {desc}: after an earlier decode of the '
+                              f'same window was aborted at line {k}, a fresh parser raises {x!r} at {core.short_tb(x)}',
+                              {'description': desc, 'abort_at': k})
+                return
+            if got != texts:
+                res.violation(f'{key_prefix}-depends-on-an-aborted-request', f'{label}: {desc}: after an earlier decode of the '
+                              f'same window was aborted at line {k} inside the library (an exception not from the data), a '
+                              f'fresh parser renders {got}, expected {texts}', {'description': desc, 'abort_at': k})
+                return
+            if not fired or k > 400:
+                break
+
+
 def run_all(res, key_prefix, cases, rng, label, ctx):
     run_stream(res, key_prefix, cases, rng, label)
     run_files(res, key_prefix, cases, rng, label)
@@ -365,6 +492,9 @@ def run_all(res, key_prefix, cases, rng, label, ctx):
     run_threads(res, key_prefix, cases, rng, label)
     run_front_end_sequences(res, key_prefix, cases, rng, label, n=ctx.pick(12, 60))
     run_relabelled(res, key_prefix, cases, rng, label, n=ctx.pick(200, 2000))
+    run_permuted(res, key_prefix, cases, rng, label, n=ctx.pick(300, 3000))
+    run_live_table(res, key_prefix, cases, rng, label, n=ctx.pick(300, 3000))
+    run_aborted(res, key_prefix, cases, rng, label, n=ctx.pick(12, 100))
     if ctx.shard == 0 or ctx.thorough:
         run_cold(res, key_prefix, cases, rng, label, n_procs=ctx.pick(6, 12))
 
@@ -443,3 +573,45 @@ def run_cold(res, key_prefix, cases, rng, label, n_procs=8, n_cases=40, n_thread
                         return
     finally:
         os.unlink(path)
+
+
+def run_live_table(res, key_prefix, cases, rng, label, n=300):
+    """ONE long-lived parser whose code table is the caller's own dict, edited in place between windows without changing
+    its size: before every window two ids in use trade their names (and the window's records are renumbered to match).
+    The table is read as it is when a record arrives; nothing derived from an earlier state of it may be used."""
+    pool = list(cases)
+    rng.shuffle(pool)
+    pool = pool[:n]
+    if len(pool) < 2:
+        return
+    bundled = ev.bundled_codes()
+    table = dict(bundled)
+    current = {}                      # bundled id -> id under which the table lists that name now
+    parser = ev.new_parser(codes=table)
+    ts = 5000
+    for seq, texts, desc in pool:
+        events = H.materialize([(6, a) for a in seq], t0=ts)
+        ts = max(e.timestamp for e in events) + 100
+        used = sorted({e.eventid for e in events if e.eventid in bundled and e.eventid not in ev.REAL_FAULT_IDS})
+        if len(used) >= 2 and rng.random() < 0.7:
+            a, b = rng.sample(used, 2)
+            ia, ib = current.get(a, a), current.get(b, b)
+            table[ia], table[ib] = table[ib], table[ia]          # same size, two names trade ids
+            current[a], current[b] = ib, ia
+        try:
+            got = []
+            for e in events:
+                e2 = ev.mk(e.timestamp, current.get(e.eventid, e.eventid), e.func_qualifier, e.data, e.tid)
+                t = parser.feed(e2)
+                if t is not None:
+                    got.append(str(t))
+        except Exception as x:
+            res.violation(f'{key_prefix}-live-table-raises-{core.exc_name(x)}', f'{label}: {desc} on a parser whose table is '
+                          f'edited in place between windows: {x!r} at {core.short_tb(x)}', {'description': desc})
+            return
+        res.count('windows_on_a_parser_with_a_live_table')
+        if got != texts:
+            res.violation(f'{key_prefix}-table-state-remembered', f'{label}: {desc}: rendered {got} on a long-lived parser whose '
+                          f'table had two names trade ids (in place, same size) before this window, {texts} under the bundled '
+                          f'table', {'description': desc})
+            return
